@@ -1,0 +1,139 @@
+/*
+ * Atree - Scalable Arrays and Ordered Maps
+ *
+ * Copyright Flow Foundation
+ *
+ * Licensed under the Apache License, Version 2.0 (the "License");
+ * you may not use this file except in compliance with the License.
+ * You may obtain a copy of the License at
+ *
+ *   http://www.apache.org/licenses/LICENSE-2.0
+ *
+ * Unless required by applicable law or agreed to in writing, software
+ * distributed under the License is distributed on an "AS IS" BASIS,
+ * WITHOUT WARRANTIES OR CONDITIONS OF ANY KIND, either express or implied.
+ * See the License for the specific language governing permissions and
+ * limitations under the License.
+ */
+
+//go:build verif
+
+package atree
+
+//@ # ---------------------------------------------------------------- map_element.go: single elements and collision groups (C02 C05 C06 C09 C12)
+
+//@ # an element list as a group holds it: a sorted-digest list or a last-level list, well-formed, sizes within uint32 arithmetic
+//@ pred wfEls(es elements) = es != nil &&
+//@      (is(es, *hkeyElements) ==> wfHk(as(es, *hkeyElements)) && as(es, *hkeyElements).size <= 4290000000) &&
+//@      (is(es, *singleElements) ==> wfSEs(as(es, *singleElements)) && as(es, *singleElements).size <= 4290000000 &&
+//@          (forall j :: 0 <= j && j < len(as(es, *singleElements).elems) ==> as(es, *singleElements).elems[j].key != nil && as(es, *singleElements).elems[j].value != nil &&
+//@              bs(as(es, *singleElements).elems[j].key) <= maxInlineMapKeySize))
+
+//@ pred wfSingle(e *singleElement) = e != nil && e.key != nil && e.value != nil && bs(e.key) <= maxInlineMapKeySize && e.size == 1 + bs(e.key) + bs(e.value) && e.size <= 4000000000
+
+//@ # ---- inline group: insert one level deeper; a first-level group that has outgrown the per-element limit is spilled into its own slab
+//@ func (e *inlineCollisionGroup) Set(storage, address, b, digester, level, hkey, comparator, hip, key, value) (newElem, ks, existing, err)  serves C02 C05 C06 C09 C12
+//@   requires e != nil && wfEls(e.elements) && storage != nil && digester != nil && comparator != nil && key != nil && value != nil && level <= 1000
+//@   assume !inSub(e.elements, e) && valueRoot(key) != e && valueRoot(value) != e because "frame assumption F: a group is not inside the subtree of its own element list; the key / value being stored is not this group"
+//@   ensures err != nil ==> newElem == nil
+//@   ensures[C18] err != nil ==> categorised(err)
+//@   ensures[C12] err == nil ==> e.elements == old(e.elements) && (newElem == e || (is(newElem, *externalCollisionGroup) && fresh(as(newElem, *externalCollisionGroup))))
+//@   # spilled exactly when the group sits at the first level and is over the limit after the insertion
+//@   ensures[C05 C12] err == nil ==> (newElem != e) == (old(level) == 0 && 2 + elsSize(e.elements) > maxInlineMapElementSize)
+//@   # the spilled group: a stored, unlimited-size, collision-group slab of the map's address that holds the same element list; the
+//@   # element left behind is a reference of the fixed reference size
+//@   ensures[C06 C12] err == nil && newElem != e ==> as(newElem, *externalCollisionGroup).size == 21
+//@   ensures[C09 C12] err == nil && newElem != e ==> as(newElem, *externalCollisionGroup).slabID != SlabIDUndefined && as(newElem, *externalCollisionGroup).slabID.address == address
+//@   ensures[C09 C12] err == nil && newElem != e ==> is(sto[as(newElem, *externalCollisionGroup).slabID], *MapDataSlab) && fresh(as(sto[as(newElem, *externalCollisionGroup).slabID], *MapDataSlab)) &&
+//@        has(stored, sto[as(newElem, *externalCollisionGroup).slabID])
+//@   ensures[C06 C12] err == nil && newElem != e ==> as(sto[as(newElem, *externalCollisionGroup).slabID], *MapDataSlab).elements == e.elements &&
+//@        as(sto[as(newElem, *externalCollisionGroup).slabID], *MapDataSlab).anySize && as(sto[as(newElem, *externalCollisionGroup).slabID], *MapDataSlab).collisionGroup &&
+//@        !as(sto[as(newElem, *externalCollisionGroup).slabID], *MapDataSlab).inlined && as(sto[as(newElem, *externalCollisionGroup).slabID], *MapDataSlab).extraData == nil &&
+//@        as(sto[as(newElem, *externalCollisionGroup).slabID], *MapDataSlab).header.slabID == as(newElem, *externalCollisionGroup).slabID &&
+//@        as(sto[as(newElem, *externalCollisionGroup).slabID], *MapDataSlab).header.size == 18 + elsSize(e.elements)
+//@   modifies hkeyElements.*, singleElements.*, singleElement.*, inlineCollisionGroup.*, externalCollisionGroup.*, MapDataSlab.*, ghost.refusals,
+//@        ghost.sto, ghost.issued, ghost.stored, ghost.touched, alloc,
+//@        as(valueRoot(key), *ArrayDataSlab).header, as(valueRoot(key), *ArrayDataSlab).inlined, as(valueRoot(key), *MapDataSlab).header, as(valueRoot(key), *MapDataSlab).inlined,
+//@        as(valueRoot(value), *ArrayDataSlab).header, as(valueRoot(value), *ArrayDataSlab).inlined, as(valueRoot(value), *MapDataSlab).header, as(valueRoot(value), *MapDataSlab).inlined
+
+//@ # ---- single element: an equal key is updated in place; a different key with the same digest makes a collision group one level
+//@ # deeper, in which the resident element sits under ITS OWN digest of that level (or in a plain list at the last level)
+//@ func (e *singleElement) Set(storage, address, b, digester, level, hkey, comparator, hip, key, value) (newElem, ks, existing, err)  serves C02 C05 C06 C12 C18
+//@   requires wfSingle(e) && storage != nil && b != nil && digester != nil && comparator != nil && hip != nil && key != nil && value != nil && level <= 1000
+//@   assume valueRoot(key) != e && valueRoot(value) != e because "frame assumption F: the key / value being stored is not this element"
+//@   ensures err != nil ==> newElem == nil
+//@   ensures[C18] err != nil ==> categorised(err)
+//@   ensures[C02 C06] err == nil && keq(key, old(e.key)) ==> newElem == e && ks == e.key && existing == old(e.value) && e.key == old(e.key) && wfSingle(e) &&
+//@        e.size <= maxInlineMapElementSize
+//@   ensures[C12] err == nil && !keq(key, old(e.key)) ==> newElem != e && (is(newElem, *inlineCollisionGroup) || is(newElem, *externalCollisionGroup))
+//@   # last level: the resident element and nothing else in a plain list of the next level
+//@   before[C12] inlineCollisionGroup.Set#1: is(group.elements, *singleElements) && fresh(as(group.elements, *singleElements)) && as(group.elements, *singleElements).level == level + 1 &&
+//@        len(as(group.elements, *singleElements).elems) == 1 && as(group.elements, *singleElements).elems[0] == e && as(group.elements, *singleElements).size == 6 + e.size
+//@   # otherwise: the resident element under the digest of ITS key at the next level
+//@   before[C12] inlineCollisionGroup.Set#2: is(group.elements, *hkeyElements) && fresh(as(group.elements, *hkeyElements)) && as(group.elements, *hkeyElements).level == level + 1 &&
+//@        len(as(group.elements, *hkeyElements).elems) == 1 && len(as(group.elements, *hkeyElements).hkeys) == 1 && as(group.elements, *hkeyElements).elems[0] == e &&
+//@        as(group.elements, *hkeyElements).hkeys[0] == dig(svOf(e.key), level + 1) && as(group.elements, *hkeyElements).size == 8 + 8 + e.size
+//@   modifies hkeyElements.*, singleElements.*, singleElement.*, inlineCollisionGroup.*, externalCollisionGroup.*, MapDataSlab.*, ghost.refusals,
+//@        basicDigester.circleHash64, basicDigester.blake3Hash, basicDigester.msg, basicDigester.scratch,
+//@        ghost.sto, ghost.issued, ghost.stored, ghost.touched, alloc,
+//@        as(valueRoot(key), *ArrayDataSlab).header, as(valueRoot(key), *ArrayDataSlab).inlined, as(valueRoot(key), *MapDataSlab).header, as(valueRoot(key), *MapDataSlab).inlined,
+//@        as(valueRoot(value), *ArrayDataSlab).header, as(valueRoot(value), *ArrayDataSlab).inlined, as(valueRoot(value), *MapDataSlab).header, as(valueRoot(value), *MapDataSlab).inlined
+
+//@ pred isGroupEl(x element) = is(x, *inlineCollisionGroup) || is(x, *externalCollisionGroup)
+
+//@ # ---- removal from an inline group: one level deeper; a group left with one plain element collapses to that element
+//@ func (e *inlineCollisionGroup) Remove(storage, digester, level, hkey, comparator, key) (k, v, newElem, err)  serves C02 C05 C12 C18
+//@   requires e != nil && wfEls(e.elements) && storage != nil && digester != nil && comparator != nil && level <= 1000
+//@   assume !inSub(e.elements, e) because "frame assumption F: a group is not inside the subtree of its own element list"
+//@   ensures err != nil ==> newElem == nil
+//@   ensures[C12] err == nil ==> e.elements == old(e.elements)
+//@   ensures[C12] err == nil && ecnt(e.elements) == 1 && !isGroupEl(elemAt(e.elements, 0)) ==> newElem == elemAt(e.elements, 0)
+//@   ensures[C12] err == nil && !(ecnt(e.elements) == 1 && !isGroupEl(elemAt(e.elements, 0))) ==> newElem == e
+//@   modifies hkeyElements.*, singleElements.*, singleElement.*, inlineCollisionGroup.*, externalCollisionGroup.*, MapDataSlab.*, ghost.sto, ghost.issued, ghost.stored, ghost.touched, alloc
+
+//@ func (e *inlineCollisionGroup) Get(storage, digester, level, hkey, comparator, key) (k, v, err)  serves C02 C18
+//@   requires e != nil && wfEls(e.elements) && storage != nil && digester != nil && comparator != nil && level <= 1000
+//@   ensures[C18] err != nil ==> k == nil && v == nil
+//@   modifies alloc
+
+//@ # ---- single element: lookup and removal by the caller's key equality
+//@ func (e *singleElement) Get(storage, digester, level, hkey, comparator, key) (k, v, err)  serves C02 C18
+//@   requires e != nil && comparator != nil
+//@   ensures[C02] err == nil ==> keq(key, e.key) && k == e.key && v == e.value
+//@   ensures[C02 C18] err != nil ==> k == nil && v == nil && categorised(err)
+//@   modifies alloc
+
+//@ func (e *singleElement) Remove(storage, digester, level, hkey, comparator, key) (k, v, newElem, err)  serves C02 C18
+//@   requires e != nil && comparator != nil
+//@   ensures[C02] err == nil ==> keq(key, e.key) && k == e.key && v == e.value && newElem == nil
+//@   ensures[C02 C18] err != nil ==> k == nil && v == nil && newElem == nil && categorised(err)
+//@   ensures e.key == old(e.key) && e.value == old(e.value) && e.size == old(e.size)
+//@   modifies alloc
+
+//@ # ---- external group: the group lives in its own unlimited-size slab; the element is a fixed-size reference to it
+//@ func (e *externalCollisionGroup) Set(storage, address, b, digester, level, hkey, comparator, hip, key, value) (newElem, ks, existing, err)  serves C02 C06 C12 C18
+//@   requires e != nil && storage != nil && digester != nil && comparator != nil && key != nil && value != nil && level <= 1000
+//@   assume (is(sto[e.slabID], *MapDataSlab) ==> wfMDSG(as(sto[e.slabID], *MapDataSlab)) && as(sto[e.slabID], *MapDataSlab).header.size <= 4000000000) &&
+//@        (is(sto[e.slabID], *MapMetaDataSlab) ==> false) && !inSub(sto[e.slabID], e) && valueRoot(key) != sto[e.slabID] && valueRoot(value) != sto[e.slabID]
+//@        because "tree invariant (composition): the slab of an external collision group is a well-formed data slab; frame assumption F: the reference element is not inside the subtree of the slab it refers to"
+//@   ensures err != nil ==> newElem == nil
+//@   ensures[C12] err == nil ==> newElem == e && e.slabID == old(e.slabID) && e.size == old(e.size)
+//@   modifies hkeyElements.*, singleElements.*, singleElement.*, inlineCollisionGroup.*, externalCollisionGroup.*, MapDataSlab.*, MapMetaDataSlab.childrenHeaders, MapMetaDataSlab.header, ghost.refusals,
+//@        ghost.sto, ghost.issued, ghost.stored, ghost.touched, alloc,
+//@        as(valueRoot(key), *ArrayDataSlab).header, as(valueRoot(key), *ArrayDataSlab).inlined, as(valueRoot(key), *MapDataSlab).header, as(valueRoot(key), *MapDataSlab).inlined,
+//@        as(valueRoot(value), *ArrayDataSlab).header, as(valueRoot(value), *ArrayDataSlab).inlined, as(valueRoot(value), *MapDataSlab).header, as(valueRoot(value), *MapDataSlab).inlined
+
+//@ # removal: a group left with one plain element collapses to that element, and the slab that held the group is removed from storage
+//@ func (e *externalCollisionGroup) Remove(storage, digester, level, hkey, comparator, key) (k, v, newElem, err)  serves C02 C09 C12 C18
+//@   requires e != nil && storage != nil && digester != nil && comparator != nil && level <= 1000
+//@   assume (is(sto[e.slabID], *MapDataSlab) ==> wfMDSG(as(sto[e.slabID], *MapDataSlab)) && as(sto[e.slabID], *MapDataSlab).header.size <= 4000000000 &&
+//@        as(sto[e.slabID], *MapDataSlab).header.slabID == e.slabID) && !inSub(sto[e.slabID], e)
+//@        because "tree invariant (composition): the slab of an external collision group is a well-formed data slab; frame assumption F: the reference element is not inside the subtree of the slab it refers to"
+//@   ensures err != nil ==> newElem == nil
+//@   ensures[C18] err != nil ==> categorised(err)
+//@   ensures[C12] err == nil ==> is(old(sto[e.slabID]), *MapDataSlab) && e.slabID == old(e.slabID) && e.size == old(e.size)
+//@   ensures[C09 C12] err == nil && ecnt(as(old(sto[e.slabID]), *MapDataSlab).elements) == 1 && !isGroupEl(elemAt(as(old(sto[e.slabID]), *MapDataSlab).elements, 0)) ==>
+//@        newElem == elemAt(as(old(sto[e.slabID]), *MapDataSlab).elements, 0) && sto[e.slabID] == nil
+//@   ensures[C09 C12] err == nil && !(ecnt(as(old(sto[e.slabID]), *MapDataSlab).elements) == 1 && !isGroupEl(elemAt(as(old(sto[e.slabID]), *MapDataSlab).elements, 0))) ==>
+//@        newElem == e && sto[e.slabID] == old(sto[e.slabID])
+//@   modifies hkeyElements.*, singleElements.*, singleElement.*, inlineCollisionGroup.*, externalCollisionGroup.*, MapDataSlab.*, ghost.sto, ghost.issued, ghost.stored, ghost.touched, alloc
